@@ -231,6 +231,49 @@ def stepC14 (s : S14) (op : String) (got : String) : StepResult S14 :=
           (if !isCrash got && got != want then
             [⟨"clone-independent", "cln", s!"a clone of {a} (decoded from a buffer that was then reused) reads {got}"⟩] else []) }
     | none => bad s
+  | "memp" :: toks =>
+    -- MemoryStore: P:<name>:<version> puts, then Q:<name> = Get(name, prefix=true): index of the put served, or -
+    let puts := toks.filterMap fun t =>
+      match t.splitOn ":" with
+      | "P" :: rest => match rest.reverse with
+        | v :: nm => match Name.ofText (":".intercalate nm.reverse), v.toNat? with
+          | some n, some ver => some (n, ver)
+          | _, _ => none
+        | _ => none
+      | _ => none
+    let qs := toks.filterMap fun t => if t.startsWith "Q:" then Name.ofText ((t.drop 2).toString) else none
+    let want := " ".intercalate (qs.map fun q => match memNewest puts q with | some i => toString i | none => "-")
+    { st := s, expected := some want, cov := ["memp"], nontrivial := puts.length ≥ 2,
+      spec := crashSpec "MemoryStore.Get(prefix)" got ++
+        (if !isCrash got && got != want then
+          [⟨"prefix-agrees", "memp", s!"MemoryStore over {toks} answered {got}; the stored names under each queried prefix (Name.IsPrefix) prescribe {want}"⟩] else []) }
+  | "pitm" :: toks =>
+    -- PIT: I:<name>:<cbp> Interests, then D:<name>:<t> Data (t = index of the entry whose token it echoes, or -):
+    -- indices of the entries matched
+    let ints := toks.filterMap fun t =>
+      match t.splitOn ":" with
+      | "I" :: rest => match rest.reverse with
+        | c :: nm => match Name.ofText (":".intercalate nm.reverse) with
+          | some n => some (n, c == "1")
+          | none => none
+        | _ => none
+      | _ => none
+    let ds := toks.filterMap fun t =>
+      match t.splitOn ":" with
+      | "D" :: rest => match rest.reverse with
+        | tk :: nm => match Name.ofText (":".intercalate nm.reverse) with
+          | some n => some (n, tk.toNat?)
+          | none => none
+        | _ => none
+      | _ => none
+    let showL (l : List Nat) := if l.isEmpty then "-" else ",".intercalate (l.map toString)
+    let want := " ".intercalate (ds.map fun d => match d.2 with
+      | some t => showL (pitTokenMatch ints t)
+      | none => showL (pitNameMatch ints d.1))
+    { st := s, expected := some want, cov := ["pitm"], nontrivial := ints.length ≥ 2,
+      spec := crashSpec "PIT data match" got ++
+        (if !isCrash got && got != want then
+          [⟨"prefix-agrees", "pitm", s!"the PIT over {toks} matched {got}; the token rule / the prefix relation prescribe {want}"⟩] else []) }
   | "tabr" :: kind :: toks => tabStep s "tabr" kind toks got
   | "tabx" :: kind :: toks => tabStep s "tabx" kind toks got
   | "tab" :: kind :: q :: ns =>
